@@ -96,9 +96,16 @@ def single : Nat → List Token → Option (Option Node)
       else
         let c := items k [n] ts
         if epilogOk (afterContent n c.2) then some (some (.elem n (intake a AttrState.empty) false c.1)) else none
-  | k + 1, .startend n a :: ts =>
+  | _ + 1, .startend n a :: ts =>
       if epilogOk ts then some (some (.elem (lower n) (intake a AttrState.empty) true [])) else none
   | k + 1, t :: ts => if isOuter t then single k ts else none
+
+/-- top-level content of a multi-root document: a leading doctype declaration, and newlines/blanks in
+    front of it, are not content -/
+def topTokens (toks : List Token) : List Token :=
+  match leadDoctype toks with
+  | some (_, r) => r
+  | none => toks
 
 /-- The document the specification assigns to a token sequence: a single root when the input is a
     single-root document, otherwise all top-level blocks (text between the top-level elements kept)
@@ -107,7 +114,8 @@ def build (toks : List Token) : Doc × Bool :=
   match single (toks.length + 1) toks with
   | some r => (⟨doctypeOf toks, r⟩, false)
   | none =>
-    (⟨doctypeOf toks, some (.elem wrapperName AttrState.empty false (items (toks.length + 1) [] toks).1)⟩, true)
+    (⟨doctypeOf toks,
+      some (.elem wrapperName AttrState.empty false (items (toks.length + 1) [] (topTokens toks)).1)⟩, true)
 
 /-- the input mentions the reserved wrapper name (outside the property's domain) -/
 def mentionsWrapper : Token → Bool
